@@ -29,11 +29,16 @@ import vlog
 # S_w : the FHDL tree evaluated with every node wrapped to the type Migen itself declares for it
 # ------------------------------------------------------------------------------------------------------------------
 class WrappedEvaluator(Evaluator):
+    left_range = False          # set when some node's value was not representable in its declared type
+
     def eval(self, node, postcommit=False):
         r = Evaluator.eval(self, node, postcommit)
         if isinstance(node, (_Operator, _ArrayProxy)):
             nb, sg = value_bits_sign(node)
-            r = _truncate(int(r), nb, sg)
+            t = _truncate(int(r), nb, sg)
+            if t != r:
+                self.left_range = True
+            r = t
         return r
 
 
@@ -480,14 +485,19 @@ class Classifier:
                 self.variants[key] = e
         return self.variants[key]
 
-    def classify(self, trace, which, S_fast, V):
+    def classify(self, trace, which, S_fast, V, pre=None):
         """which: list of indices into observe (or ('mem', k, addr)) that disagree after `trace`.
         Returns {index: rule}.  S is re-computed on the real Evaluator (must equal the fast stepper's value)."""
-        if self._real is None:
-            self._real = RealA(self.mk)
-            self._wrapped = RealA(self.mk, WrappedEvaluator)
-        obsS, memS = self._real.run(trace)
-        obsW, memW = self._wrapped.run(trace)
+        left = {}
+        if pre is not None:
+            obsS, obsW, left = pre    # dicts {observation index: value / node-left-its-declared-range flag} from FragEval
+            memS = memW = []
+        else:
+            if self._real is None:
+                self._real = RealA(self.mk)
+                self._wrapped = RealA(self.mk, WrappedEvaluator)
+            obsS, memS = self._real.run(trace)
+            obsW, memW = self._wrapped.run(trace)
 
         def pick(obs, mems, w):
             return mems[w[1]][w[2]] if isinstance(w, tuple) else obs[w]
@@ -536,10 +546,23 @@ class Classifier:
         import itertools
         names = list(EXPR_PATCHES) + (["memory_mode"] if self.has_mem else [])
         # printer defects first: the smallest set of golden printer rules that makes vlog agree with the simulator
-        for k in (1, 2):
-            for combo in itertools.combinations(names, k):
-                todo = explain(("golden", combo), "printer." + "+".join(combo), todo)
-        todo = explain(("golden", tuple(names)), "printer.multi", todo)
+        for n in names:
+            todo = explain(("golden", (n,)), "printer." + n, todo)
+        if todo:
+            # does the complete golden printer repair it?  only then look for the pair that is enough
+            b = self.B(("golden", tuple(names)))
+            if not isinstance(b, Exception):
+                obs, mems = run_trace_B(b, trace)
+                cand = [w for w in todo if pick(obs, mems, w) == pick(obsS, memS, w)]
+                if cand:
+                    rest = [w for w in todo if w not in cand]
+                    for combo in itertools.combinations(names, 2):
+                        cand = explain(("golden", combo), "printer." + "+".join(combo), cand)
+                        if not cand:
+                            break
+                    for w in cand:
+                        out[w] = "printer.multi"
+                    todo = rest
         # h2: the standard's types with contexts too wide to overflow give the simulator's value, plain V does not
         todo = explain(("unb", None), "gap.h2", todo)
         todo = explain(("lenient", None), "printer.const_only_always", todo)
@@ -547,7 +570,9 @@ class Classifier:
             todo = explain(("golden+lenient", (n,)), "printer.const_only_always+" + n, todo)
         todo = explain(("golden+lenient", tuple(names)), "printer.const_only_always+multi", todo)
         for w in todo:
-            out[w] = "printer.other"
+            # weaker form of h1: the final value survives the wrapping, but some node of the fragment left its declared
+            # type on this input (e.g. `~a` of an unsigned `a` compared with a wider operand) and no printer rule explains it
+            out[w] = "gap.h1" if left.get(w) else "printer.other"
         return out
 
 
@@ -721,3 +746,40 @@ class _obs_dict(dict):
         for k, m in enumerate(mems):
             for a, x in enumerate(m):
                 self[("mem", k, a)] = x
+
+
+class FragEval:
+    """S and S_w of ONE independent comb fragment of a packed module, on LiteX's real Evaluator (resp. the wrapped one):
+    the fragment's own statements preceded by the simulator's comb defaults (target <= reset), executed and committed
+    until nothing changes - exactly what Simulator.run does with the whole comb list, restricted to the statements that
+    can influence the fragment's targets."""
+    def __init__(self, mod):
+        self.mod = mod
+        self.inputs = [mod.a, mod.b, mod.c]
+        self.ev = Evaluator(None, {})
+        self.evw = WrappedEvaluator(None, {})
+
+    def run(self, k, vals, wrapped=False):
+        ev = self.evw if wrapped else self.ev
+        targets = self.mod.frag_obs[k][1]
+        stmts = self.mod.frag_stmts[k]
+        from migen.fhdl.tools import list_targets
+        allt = sorted(list_targets(stmts), key=lambda s: s.duid)
+        prog = [t.eq(t.reset) for t in allt] + stmts
+        ev.signal_values = {}
+        ev.modifications = {}
+        for s, x in zip(self.inputs, vals):
+            w = len(s)
+            ev.signal_values[s] = x - (1 << w) if s.signed and (x >> (w - 1)) & 1 else x
+        for _ in range(100):
+            ev.execute(prog)
+            if not ev.commit():
+                break
+        else:
+            raise MachineryError("fragment does not settle")
+        return [ev.eval(t) & _mask(len(t)) for t in targets]
+
+    def run_wrapped(self, k, vals):
+        self.evw.left_range = False
+        r = self.run(k, vals, wrapped=True)
+        return r, self.evw.left_range
